@@ -96,12 +96,21 @@ int main(int argc, char** argv) {
     L.explore(path, L.initial_hash, alpha, 64, "family " + f);
     states += L.set.counters[0] - 1; transitions += L.set.counters[1];
   }
-  const int depth = th ? 3 : 2;
+  // all sequences of length <= 2 over the whole alphabet; the thorough tier adds all sequences of length <= 3 over the
+  // state-changing part of the alphabet (the *_simple functions: module / table / kernel / constructor ops are self-loops)
+  const int depth = 2;
   std::vector<int> all;
   for (size_t k = 0; k < nmain; ++k) all.push_back((int)k);
   L.set.clear(); L.set.insert(L.initial_hash);
   ctx.parallel(all.size(), [&](uint64_t i) { std::vector<int> path; L.explore(path, L.initial_hash, all, depth, "cross-family", (int)i); }, "Engine B");
   states += L.set.counters[0] - 1; transitions += L.set.counters[1];
+  if (th) {
+    std::vector<int> simple;
+    for (size_t k = 0; k < nsimple; ++k) simple.push_back((int)k);
+    L.set.clear(); L.set.insert(L.initial_hash);
+    ctx.parallel(simple.size(), [&](uint64_t i) { std::vector<int> path; L.explore(path, L.initial_hash, simple, 3, "simple depth 3", (int)i); }, "Engine B, *_simple sequences of length 3");
+    states += L.set.counters[0] - 1; transitions += L.set.counters[1];
+  }
 
   // ---- part 2: Engine C ------------------------------------------------------------------------------------
   std::vector<Scenario> scen;
@@ -111,13 +120,13 @@ int main(int argc, char** argv) {
     for (size_t k = nsimple; k < nmod_end; ++k) {
       const std::string& n = L.ops[k].name;
       if (n.find("@+8") == std::string::npos) continue;  // the scheduler works on the unaligned variants (the aligned ones are Engine B's)
-      if (!th && n.find("|N=16|") == std::string::npos) continue;  // quick: N=16 (and NTT120 N=16); thorough adds N=4 (column-major vmp layout)
+      if (n.find("|N=16|") == std::string::npos && !(th && n.find("|N=4|") != std::string::npos)) continue;  // the large dimensions (N = 256, 8192) are Engine B's job  // quick: N=16 (and NTT120 N=16); thorough adds N=4 (column-major vmp layout)
       bool h = n.find("vmp") != std::string::npos || n.find("dft") != std::string::npos || n.find("svp") != std::string::npos || n.find("small") != std::string::npos || n.find("normalize") != std::string::npos;
       (h ? heavy : light).push_back((int)k);
     }
     for (size_t a = 0; a < heavy.size(); ++a) for (size_t b = a; b < heavy.size(); ++b) scen.push_back({"S1 module pair", {heavy[a], (a == b && twin.count(heavy[b])) ? twin[heavy[b]] : heavy[b]}});
-    for (size_t a = 0; a < heavy.size(); ++a) for (size_t b = 0; b < light.size(); ++b) if (th || b % 6 == a % 6) scen.push_back({"S1 module pair", {heavy[a], light[b]}});
-    for (size_t a = 0; a < light.size(); ++a) for (size_t b = a; b < light.size(); ++b) if (th || a == b) scen.push_back({"S1 module pair", {light[a], (a == b && twin.count(light[b])) ? twin[light[b]] : light[b]}});
+    for (size_t a = 0; a < heavy.size(); ++a) for (size_t b = 0; b < light.size(); ++b) if (b % (th ? 3 : 6) == a % (th ? 3 : 6)) scen.push_back({"S1 module pair", {heavy[a], light[b]}});
+    for (size_t a = 0; a < light.size(); ++a) for (size_t b = a; b < light.size(); ++b) if (a == b || (th && (a + b) % 5 == 0)) scen.push_back({"S1 module pair", {light[a], (a == b && twin.count(light[b])) ? twin[light[b]] : light[b]}});
     if (th) for (size_t a = 0; a + 2 < heavy.size(); a += 2) scen.push_back({"S1 module triple", {heavy[a], heavy[a + 1], heavy[a + 2]}});
     // the large dimensions (m=4096, N=8192) are Engine B's job; the scheduler works on the small ones
     auto small_dim = [&](size_t k) { return L.ops[k].name.find("4096") == std::string::npos && L.ops[k].name.find("8192") == std::string::npos; };
